@@ -288,7 +288,7 @@ def iter_flat_map(eng, c, a, g):
 
 # ------------------------------------------------------------------ IndexMap<K, V> (SlotMap)
 def key_match(eng, key, k):
-    key = textid(eng, key)
+    key = as_key(eng, key); k = as_key(eng, k)
     if isinstance(key, UrlV) and isinstance(k, UrlV): return EQ(key.id, k.id)
     if isinstance(key, TextV) and isinstance(k, TextV): return EQ(key.id, k.id)
     if isinstance(key, StrV) and isinstance(k, StrV): return z3.BoolVal(key.s == k.s)
@@ -812,11 +812,30 @@ def iter_collect_vec(eng, c, a, g):
     cap = max(len(items), eng.cfg.get('VEC', 4))
     return VecModel(items + [None] * (cap - len(items)), cnt)     # availability of a Vec IntoIter is a prefix
 class EntryV:
+    """payload of an indexmap / hash_map Entry (both variants): the map and the key"""
     def __init__(self, mapptr, key): self.mapptr, self.key = mapptr, key
     def merge(self, g, o): return EntryV(ite(g, self.mapptr, o.mapptr), ite(g, self.key, o.key))
-def indexmap_entry(eng, c, a, g): return EntryV(a[0], a[1])
+def entry_parts(e):
+    if isinstance(e, EntryV): return e
+    return e.vars[1].f[0] if 1 in e.vars else e.vars[0].f[0]
+def as_key(eng, k):
+    k = textid(eng, k)
+    lit = eng.cfg.get('text_literals')
+    if lit and isinstance(k, StrV) and k.s in lit: return TextV(BV(lit[k.s], 8))
+    return k
+def indexmap_entry(eng, c, a, g):
+    ev_ = EntryV(a[0], a[1])
+    found = FALSE
+    key = as_key(eng, a[1])
+    for cnd, pl, m in containers(eng, a[0]):
+        if isinstance(m, SlotMap):
+            found = OR(found, AND(cnd, OR(*[AND(m.present[i], key_match(eng, key, m.keys[i])) for i in range(len(m.present)) if m.keys[i] is not None])))
+        elif isinstance(m, MapModel):
+            u = uid(eng, a[1]); sel = onehot_sel(u, len(m.present))
+            found = OR(found, AND(cnd, OR(*[AND(sel[i], m.present[i]) for i in range(len(m.present))])))
+    return EnumV(IF(found, BV(0, 8), BV(1, 8)), {0: Agg([ev_]), 1: Agg([ev_])})
 def indexmap_entry_or_default(eng, c, a, g):
-    e = a[0]
+    e = entry_parts(a[0])
     vty = re.search(r'Entry::<.*, (\w+)>::or_default', c).group(1)
     dname = eng.mir.index.get((vty, 'Default', 'default'))
     if dname is None: raise Unsupported('no Default for ' + vty)
@@ -826,10 +845,11 @@ def indexmap_entry_or_default(eng, c, a, g):
         n = len(m.present)
         hit = [AND(m.present[i], key_match(eng, e.key, m.keys[i])) if m.keys[i] is not None else FALSE for i in range(n)]
         found = OR(*hit)
-        cntfree = m.count(eng.W)
-        eng.obligations.append(('IndexMap model capacity', AND(g, cnd, NOT(found), EQ(cntfree, BV(n, eng.W)))))
-        newpos = [AND(NOT(found), EQ(cntfree, BV(i, eng.W))) for i in range(n)]      # slots are kept compact
-        k = textid(eng, e.key)
+        newpos, earlier_full = [], TRUE
+        for i in range(n):      # first free slot (equals the insertion position when the map is filled from empty)
+            newpos.append(AND(NOT(found), earlier_full, NOT(m.present[i]))); earlier_full = AND(earlier_full, m.present[i])
+        eng.obligations.append(('IndexMap model capacity', AND(g, cnd, NOT(found), earlier_full)))
+        k = as_key(eng, e.key)
         nm = SlotMap([OR(m.present[i], newpos[i]) for i in range(n)], [ite(newpos[i], k, m.keys[i]) for i in range(n)], [ite(newpos[i], dflt, m.vals[i]) for i in range(n)])
         eng.write((r, p), nm, AND(g, cnd))
         for i in range(n): refs.append((AND(cnd, OR(hit[i], newpos[i])), (r, p + (('k', i),))))
@@ -935,7 +955,7 @@ MODELS_NORM = [(re.compile(r'<&?str as PartialEq(<.*>)?>::ne'), str_ne)] + MODEL
 
 # ------------------------------------------------------------------ C01 edges kernel: HashMap<Url, V> entry API, find_map, BTreeSet<Url>
 def hashmap_entry_or_insert_with(eng, c, a, g):
-    e, clo = a[0], a[1]
+    e, clo = entry_parts(a[0]), a[1]
     u = uid(eng, e.key)
     refs = []
     for cnd, (r, p), m in containers(eng, e.mapptr):
@@ -1070,7 +1090,7 @@ def dq_len(eng, c, a, g): return eng.load(a[0]).len
 def dq_is_empty(eng, c, a, g): return EQ(eng.load(a[0]).len, BV(0, eng.W))
 def map_is_empty(eng, c, a, g): return EQ(map_len(eng, c, a, g), BV(0, eng.W))
 def map_entry_or_insert(eng, c, a, g):
-    e = a[0]
+    e = entry_parts(a[0])
     class _K:  # closure-less: insert the given value when absent
         pass
     u = uid(eng, e.key); refs = []
@@ -1110,3 +1130,50 @@ _WIDE = [
     (R(r'HashSet::<&?Url>::is_empty'), set_is_empty),
 ]
 MODELS_NORM = MODELS_NORM + [(re.compile(norm_path(p.pattern)), f) for p, f in _WIDE]      # appended: specific models keep precedence
+
+# ------------------------------------------------------------------ C09 lattice kernel: IndexMap<String, V> by-value iteration, insert, Entry variants
+def slotmap_slot_insert(eng, mapptr, key, val, g, only_if_absent=False):
+    """insert key -> val; returns (was_present, pointer to the value slot, old value)"""
+    key = as_key(eng, key); refs = []; was = FALSE; old = None
+    for cnd, (r, p), m in containers(eng, mapptr):
+        n = len(m.present)
+        hit = [AND(m.present[i], key_match(eng, key, m.keys[i])) if m.keys[i] is not None else FALSE for i in range(n)]
+        found = OR(*hit); was = OR(was, AND(cnd, found))
+        newpos, earlier_full = [], TRUE
+        for i in range(n):
+            newpos.append(AND(NOT(found), earlier_full, NOT(m.present[i]))); earlier_full = AND(earlier_full, m.present[i])
+        eng.obligations.append(('IndexMap model capacity', AND(g, cnd, NOT(found), earlier_full)))
+        for i in range(n):
+            if m.vals[i] is not None: old = m.vals[i] if old is None else ite(AND(cnd, hit[i]), m.vals[i], old)
+        wr = [OR(newpos[i], FALSE if only_if_absent else hit[i]) for i in range(n)]
+        nm = SlotMap([OR(m.present[i], newpos[i]) for i in range(n)], [ite(newpos[i], key, m.keys[i]) for i in range(n)], [ite(wr[i], val, m.vals[i]) for i in range(n)])
+        eng.write((r, p), nm, AND(g, cnd))
+        for i in range(n): refs.append((AND(cnd, OR(hit[i], newpos[i])), (r, p + (('k', i),))))
+    return was, Ptr(refs), old
+def slotmap_insert(eng, c, a, g):
+    was, ref, old = slotmap_slot_insert(eng, a[0], a[1], a[2], g)
+    return opt(was, old)
+def slotmap_contains_key(eng, c, a, g):
+    r = slotmap_get(eng, c, a, g); return opt_is_some(r)
+def slotmap_into_iter_by_value(eng, c, a, g):
+    m = a[0]
+    return IterModel([(m.present[i], Agg([m.keys[i], m.vals[i]])) for i in range(len(m.present)) if m.keys[i] is not None and m.vals[i] is not None])
+def slotmap_default_cap(eng, c, a, g): return SlotMap.empty(eng.cfg.get('MAPCAP', 0))
+def occupied_get_mut(eng, c, a, g):
+    e = a[0]
+    while isinstance(e, Ptr): e = eng.load(e)
+    r = slotmap_get(eng, c, [e.mapptr, e.key], g); return opt_payload(r)
+def vacant_insert(eng, c, a, g):
+    e = a[0]
+    while isinstance(e, Ptr): e = eng.load(e)
+    was, ref, old = slotmap_slot_insert(eng, e.mapptr, e.key, a[1], g); return ref
+def indexmap_or_insert_with(eng, c, a, g):
+    e, clo = entry_parts(a[0]), a[1]
+    found = opt_is_some(slotmap_get(eng, c, [e.mapptr, e.key], g))
+    v = eng.call_closure(clo, [], AND(g, NOT(found)))
+    was, ref, old = slotmap_slot_insert(eng, e.mapptr, e.key, v, g, only_if_absent=True); return ref
+MODELS_NORM = [(re.compile(r'IndexMap::<String, .*>::insert'), slotmap_insert), (re.compile(r'IndexMap::<String, .*>::contains_key::<.*>'), slotmap_contains_key),
+               (re.compile(r'IndexMap::<String, .*>::get_mut::<.*>'), slotmap_get), (re.compile(r'<IndexMap<String, .*> as IntoIterator>::into_iter'), slotmap_into_iter_by_value),
+               (re.compile(r'<IndexMap<String, Exports> as Default>::default'), slotmap_default_cap),
+               (re.compile(r'OccupiedEntry::<.*>::(get_mut|into_mut)'), occupied_get_mut), (re.compile(r'VacantEntry::<.*>::insert'), vacant_insert),
+               (re.compile(r'Entry::<.*String, .*>::or_insert_with::<.*'), indexmap_or_insert_with)] + MODELS_NORM
